@@ -63,6 +63,7 @@ func (x *Worker) wait() {
 		x.wg = nil
 		x.mu.Unlock()
 		wg.Wait()
+		verifPoint(verifWorkerAfterWgWait)
 	}
 	close(x.stop)
 	<-x.done
